@@ -38,6 +38,7 @@ def plan(tier, seed):
     for feat in FOCUS:
         fam = 'probe:' + feat if feat in opened else 'main'
         cases += [{'family': fam, 'cseed': rnd.randrange(1 << 30), 'want': feat} for _ in range(k)]
+    cases += [{'family': 'update_sibling', 'cseed': rnd.randrange(1 << 30)} for _ in range(16 if tier == 'quick' else 300)]
     return cases
 
 
@@ -357,6 +358,9 @@ def build_population_circuit(plan_):
         w = c['w'] if c['kind'] == 'scalar' or c.get('w_scalar') else np.asarray(c['W'], dtype=float)
         conns.append(Connectivity(source=f'{sp}/{sop}/{sv}', target=f'{tp}/{top}/{tv}', weights=w, **kw))
     circ = CircuitTemplate(name='popc', populations=pops, connections=conns)
+    if plan_.get('pre_update'):
+        # a second circuit that holds the very same PopulationTemplate / Connectivity objects (built before the updates)
+        build_population_circuit.sibling = CircuitTemplate(name='popc_sibling', populations=dict(pops), connections=list(conns))
     for k_, u_ in plan_.get('pre_update', {}).items():
         pn, v = k_.split('/')
         final = plan_['pops'][pn]['params'][v]
@@ -365,6 +369,13 @@ def build_population_circuit(plan_):
 
 
 def run_case(case, ctx):
+    if case.get('family') == 'update_sibling':
+        # per-unit values given through update_var, and a second circuit that holds the same PopulationTemplate objects
+        # (machinery shared with C07)
+        from vp.props import c07
+        r_ = c07.run_population_case(dict(case, family='population'), ctx)
+        r_['features'] = list(r_.get('features', [])) + ['update_sibling']
+        return r_
     rnd = random.Random(case['cseed'])
     if case.get('spec') is not None:
         plan_ = case['spec']
